@@ -57,7 +57,8 @@ class ChunkParser:
                 # chunk data, skip it and carry on.
                 raw = rest
             else:
-                size = int(line, 16)
+                # chunk-size [ chunk-ext ] CRLF, extensions are ignored
+                size = int(line.split(b';', 1)[0], 16)
                 if size == 0 and len(rest) < len(CRLF) and CRLF.startswith(rest):
                     # Last chunk is complete only along with the
                     # CRLF terminating the body, wait for it.
